@@ -7,6 +7,8 @@ import (
 	"strconv"
 	"strings"
 
+	jump "github.com/lithammer/go-jump-consistent-hash"
+
 	"github.com/lindb/common/proto/gen/v1/flatMetricsV1"
 	commonseries "github.com/lindb/common/series"
 
@@ -29,6 +31,17 @@ func brokerCase(c *core.Ctx, r *rand.Rand) {
 	anchor := randTimestamp(r)
 	var prev *metric.BrokerBatchRows
 	last := -1
+	var poolOps, poolOuts []string
+	defer func() {
+		// the whole request sequence once more as ONE op of the stateful iterator model (one model
+		// iterator object serves all requests, as the pooled batch does)
+		c.Op("bpool "+strings.Join(poolOps, " | "), strings.Join(poolOuts, " | "))
+		if r.Intn(2) == 0 {
+			biterCase(c, r, anchor)
+		} else {
+			bshardCase(c, r, anchor)
+		}
+	}()
 	for req := 0; req < 8; req++ {
 		ki := r.Intn(len(calcs))
 		if ki == last && r.Intn(4) > 0 { // mostly switch the interval type between requests
@@ -63,9 +76,204 @@ func brokerCase(c *core.Ctx, r *rand.Rand) {
 		}
 		prev = batch
 		c.Branch("broker/request-" + k.name)
-		opBatch(c, batch, k, iv, ts)
+		poolOps = append(poolOps, k.name+" "+joinInts(ts))
+		poolOuts = append(poolOuts, opBatch(c, batch, k, iv, ts))
 		batch.Release()
 	}
+}
+
+// brokerTimestamps: n row timestamps around the anchor (same family / neighbouring hour, day, month)
+func brokerTimestamps(r *rand.Rand, anchor int64, n int) []int64 {
+	var ts []int64
+	for j := 0; j < n; j++ {
+		var d int64
+		switch r.Intn(4) {
+		case 0:
+			d = r.Int63n(2*hour) - hour
+		case 1:
+			d = r.Int63n(20*min) - 10*min
+		case 2:
+			d = r.Int63n(3*day) - 36*hour
+		default:
+			d = r.Int63n(70*day) - 35*day
+		}
+		t := clampTS(anchor + d)
+		if t < 1000 {
+			t = 1000 + r.Int63n(hour)
+		}
+		ts = append(ts, t)
+	}
+	return ts
+}
+
+// biterCase: ONE batch, not released, iterated once per interval type of a list (2..4 iterations, the
+// interval type changes between iterations): the family iterator of the batch is reset on rows that the
+// previous iteration sorted in place and with whatever the previous iteration left in its fields.
+func biterCase(c *core.Ctx, r *rand.Rand, anchor int64) {
+	ts := brokerTimestamps(r, anchor, 1+r.Intn(6))
+	m := 2 + r.Intn(3)
+	var ks []calcT
+	var ivs []int64
+	var names []string
+	last := -1
+	for i := 0; i < m; i++ {
+		ki := r.Intn(len(calcs))
+		if ki == last {
+			ki = (ki + 1 + r.Intn(2)) % len(calcs)
+		}
+		last = ki
+		ks = append(ks, calcs[ki])
+		ivs = append(ivs, calcs[ki].intervals[r.Intn(len(calcs[ki].intervals))])
+		names = append(names, calcs[ki].name)
+	}
+	op := fmt.Sprintf("biter %s | %s", joinInts(ts), strings.Join(names, " "))
+	c.Branch("broker/same-batch-iterated-again")
+	guarded(c, op, false, func() string {
+		batch := metric.NewBrokerBatchRows()
+		defer batch.Release()
+		for _, t := range ts {
+			t := t
+			if err := batch.TryAppend(func(row *metric.BrokerRow) error { return buildRow(row, t) }); err != nil {
+				return "error " + err.Error()
+			}
+		}
+		var outs []string
+		for i := range ks {
+			itr := batch.NewShardGroupIterator(1)
+			var parts []famGroup
+			out := 0
+			for itr.HasRowsForNextShard() {
+				_, fitr := itr.FamilyRowsForNextShard(timeutil.Interval(ivs[i]))
+				g, n := drainFamilies(c, fitr, ks[i], ivs[i], op)
+				out += n
+				parts = append(parts, g...)
+			}
+			if out != len(ts) {
+				c.Fail("broker-rows-lost/"+ks[i].name, fmt.Sprintf("%s iteration %d: %d rows in, %d rows out", op, i, len(ts), out))
+			}
+			outs = append(outs, showGroups(parts))
+		}
+		return strings.Join(outs, " | ")
+	})
+}
+
+func buildRowTag(row *metric.BrokerRow, timestamp int64, tag string) error {
+	builder, releaseFunc := commonseries.NewRowBuilder()
+	defer releaseFunc(builder)
+	builder.AddMetricName([]byte("c13"))
+	_ = builder.AddTag([]byte("host"), []byte(tag))
+	_ = builder.AddSimpleField([]byte("f1"), flatMetricsV1.SimpleFieldTypeDeltaSum, 1)
+	builder.AddTimestamp(timestamp)
+	data, err := builder.Build()
+	if err != nil {
+		return err
+	}
+	row.FromBlock(data)
+	return nil
+}
+
+// bshardCase: one batch whose rows hash to several shards (2..4 shards, series distinguished by a tag):
+// the batch's ONE family iterator is reset once per shard group on a sub-slice of the batch. The shard
+// index of a row (jump.Hash of the series hash: external) is computed here with the same call and is
+// part of the op; the family grouping per shard group is diffed and judged.
+func bshardCase(c *core.Ctx, r *rand.Rand, anchor int64) {
+	n := 2 + r.Intn(3)
+	ki := r.Intn(len(calcs))
+	k := calcs[ki]
+	iv := k.intervals[r.Intn(len(k.intervals))]
+	ts := brokerTimestamps(r, anchor, 2+r.Intn(8))
+	tags := make([]string, len(ts))
+	var pairs []string
+	for i, t := range ts {
+		tags[i] = "h" + strconv.Itoa(r.Intn(6))
+		var row metric.BrokerRow
+		if err := buildRowTag(&row, t, tags[i]); err != nil {
+			return
+		}
+		m := row.Metric()
+		pairs = append(pairs, fmt.Sprintf("%d %d", jump.Hash(m.KvsHash(), int32(n)), t))
+	}
+	op := fmt.Sprintf("bshard %s | %s", k.name, strings.Join(pairs, " "))
+	guarded(c, op, false, func() string {
+		batch := metric.NewBrokerBatchRows()
+		defer batch.Release()
+		for i, t := range ts {
+			t, tag := t, tags[i]
+			if err := batch.TryAppend(func(row *metric.BrokerRow) error { return buildRowTag(row, t, tag) }); err != nil {
+				return "error " + err.Error()
+			}
+		}
+		var outs []string
+		out := 0
+		itr := batch.NewShardGroupIterator(int32(n))
+		for itr.HasRowsForNextShard() {
+			shardIdx, fitr := itr.FamilyRowsForNextShard(timeutil.Interval(iv))
+			g, cnt := drainFamilies(c, fitr, k, iv, op)
+			out += cnt
+			outs = append(outs, fmt.Sprintf("%d=%s", shardIdx, showGroups(g)))
+		}
+		if out != len(ts) {
+			c.Fail("broker-rows-lost/"+k.name, fmt.Sprintf("%s: %d rows in, %d rows out", op, len(ts), out))
+		}
+		if len(outs) > 1 {
+			c.Branch("broker/several-shard-groups")
+		} else {
+			c.Branch("broker/one-shard-group")
+		}
+		return strings.Join(outs, " | ")
+	})
+}
+
+type famGroup struct {
+	family int64
+	rows   []int64
+}
+
+// drainFamilies runs the caller's loop HasNextFamily/NextFamily on the real iterator and judges every
+// row handed out: its family (of interval iv's calculator) must be the group's family time and contain it.
+func drainFamilies(c *core.Ctx, fitr *metric.BrokerBatchShardFamilyIterator, k calcT, iv int64, op string) (groups []famGroup, out int) {
+	calc := timeutil.Interval(iv).Calculator()
+	for fitr.HasNextFamily() {
+		familyTime, rows := fitr.NextFamily()
+		g := famGroup{family: familyTime}
+		for i := range rows {
+			m := rows[i].Metric()
+			t := m.Timestamp()
+			out++
+			g.rows = append(g.rows, t)
+			if t >= 0 {
+				want := calc.CalcFamilyTime(t)
+				if familyTime != want || t < familyTime || t > calc.CalcFamilyEndTime(familyTime) {
+					c.Fail("broker-family/"+k.name, fmt.Sprintf("%s (interval %d, %s type): row t=%d handed out under family %d, its family is %d", op, iv, k.name, t, familyTime, want))
+				}
+			}
+		}
+		sort.Slice(g.rows, func(a, b int) bool { return g.rows[a] < g.rows[b] })
+		groups = append(groups, g)
+	}
+	return groups, out
+}
+
+// showGroups: canonical text of family groups (sorted by family, then first row), `none` if empty
+func showGroups(groups []famGroup) string {
+	if len(groups) == 0 {
+		return "none"
+	}
+	sort.Slice(groups, func(a, b int) bool {
+		if groups[a].family != groups[b].family {
+			return groups[a].family < groups[b].family
+		}
+		return groups[a].rows[0] < groups[b].rows[0]
+	})
+	var parts []string
+	for _, g := range groups {
+		rs := make([]string, len(g.rows))
+		for i, t := range g.rows {
+			rs[i] = strconv.FormatInt(t, 10)
+		}
+		parts = append(parts, fmt.Sprintf("%d:%s", g.family, strings.Join(rs, ",")))
+	}
+	return strings.Join(parts, " ")
 }
 
 func buildRow(row *metric.BrokerRow, timestamp int64) error {
@@ -83,9 +291,10 @@ func buildRow(row *metric.BrokerRow, timestamp int64) error {
 	return nil
 }
 
-func opBatch(c *core.Ctx, batch *metric.BrokerBatchRows, k calcT, iv int64, ts []int64) {
+func opBatch(c *core.Ctx, batch *metric.BrokerBatchRows, k calcT, iv int64, ts []int64) (result string) {
 	op := fmt.Sprintf("batch %s %s", k.name, joinInts(ts))
-	guarded(c, op, false, func() string {
+	guarded(c, op, false, func() (res string) {
+		defer func() { result = res }()
 		for _, t := range ts {
 			t := t
 			if err := batch.TryAppend(func(row *metric.BrokerRow) error { return buildRow(row, t) }); err != nil {
@@ -149,6 +358,7 @@ func opBatch(c *core.Ctx, batch *metric.BrokerBatchRows, k calcT, iv int64, ts [
 		}
 		return strings.Join(parts, " ")
 	})
+	return result
 }
 
 var _ = rand.Int
